@@ -107,7 +107,8 @@ pub fn eval(dna: &[u16]) -> Res {
     let mut cfg = GenCfg::full();
     cfg.trait_pct = 50;
     let built = gen::build(&mut d, &cfg);
-    let s = built.spec;
+    let mut s = built.spec;
+    let _ = crate::props::c12::exotic_in_process(&mut s, &mut d);
     let educed: Vec<Tr> = {
         let mut v: Vec<Tr> = s.traits.iter().map(|a| a.tr).collect();
         v.dedup();
